@@ -15,9 +15,9 @@ structure St where
   n : Nat := 0
 deriving Inhabited
 
-def mkFabric (idx : Nat) (root noc : Cert) (icac : Option Cert) : Fabric :=
+def mkFabric (idx : Nat) (root noc : Cert) (icac : Option Cert) (opKey : Option Nat) : Fabric :=
   { idx := idx, fabricId := (fabricIdOf noc.subject).getD 0, root := root, ipk := .atom 77,
-    nodeId := (nodeIdOf noc.subject).getD 0, noc := noc, icac := icac, opKey := noc.pubKey }
+    nodeId := (nodeIdOf noc.subject).getD 0, noc := noc, icac := icac, opKey := opKey.getD noc.pubKey }
 
 def junk (k : Nat) : Term := .atom (900000 + k)
 
@@ -139,7 +139,9 @@ def checkSide (side : String) (t : Time) (mine peer : Fabric) (s : String) : Opt
     match parseSess s with
     | none => some s!"{side}: unparsable session {s}"
     | some (fab, p, cats, loc) =>
-      if ¬ decide (CaseValid t mine.view peer.noc peer.icac) then
+      if peer.opKey ≠ peer.noc.pubKey then
+        some s!"{side} holds a session with a peer that does not hold the private key of its NOC: {s}"
+      else if ¬ decide (CaseValid t mine.view peer.noc peer.icac) then
         some s!"{side} holds a session although the peer's chain is not valid for the addressed fabric: {s}"
       else if fab ≠ mine.idx then some s!"{side}: session on another fabric index: {s}"
       else if some p ≠ nodeIdOf peer.noc.subject then
@@ -187,8 +189,9 @@ def step (st : St) (line : String) : St × String :=
         match rec? "root", rec? "cnoc", rec? "dnoc" with
         | some root, some cnoc, some dnoc =>
           let droot := (rec? "droot").getD root
-          { ctl := some (mkFabric 1 root cnoc (orec "cicac")),
-            dev := some (mkFabric 1 droot dnoc (orec "dicac")), n := 0 }
+          let key (k : String) : Option Nat := (Driver.C19.kv k rest).bind String.toNat?
+          { ctl := some (mkFabric 1 root cnoc (orec "cicac") (key "ckey")),
+            dev := some (mkFabric 1 droot dnoc (orec "dicac") (key "dkey")), n := 0 }
         | _, _, _ => {}
       else st
     match st.ctl, st.dev, Driver.C19.parseTime (field out "t") with
